@@ -20,7 +20,7 @@ def pathOf (k : Bytes) : Path := (keyPath k).getD []
 
 /-- `delete_objects` comparable: admissible bucket; when it exists the keys are canonical (or refused by both sides) and none
     names a directory left behind [fs:leftover-directory]. Keys that do not exist and keys named more than once are inside
-    since 7d30be5 (every requested key is reported as deleted; before: fs:delete-objects-omits-missing-keys,
+    since c55c267 (every requested key is reported as deleted; before: fs:delete-objects-omits-missing-keys,
     fs:delete-objects-duplicate-key), and so is a request with a key both sides refuse (`InvalidArgument`). A bucket that does
     not exist is inside since 0f31b61, with any keys (`NoSuchBucket` on both sides, `InvalidArgument` when a key is refused;
     before: fs:delete-objects-in-missing-bucket) -/
